@@ -75,7 +75,8 @@ class Report:
     def finish(self, tree, checker_cmd, min_obligations=0, write=True):
         from .srcmodel import AnalysisError
         n_ob = len(self.obligations)
-        if n_ob < min_obligations:
+        if n_ob < min_obligations and not (self.violations and self.extra.get("incomplete")):
+            # (an evaluation that stopped early AFTER it had established a violation reports that violation: fewer obligations are expected)
             raise AnalysisError("only %d obligations were generated, %d expected at least "
                                 "(a rule matching no site never passes)" % (n_ob, min_obligations))
         known = load_known()
